@@ -2974,6 +2974,12 @@ evhttp_connection_connect_(struct evhttp_connection *evcon)
 	if (evcon->state == EVCON_CONNECTING)
 		return (0);
 
+	/* A retry may still be scheduled (a request cancelled while we were
+	 * waiting for it starts the next one right away): it must not fire
+	 * later and tear down the connection this attempt sets up. */
+	if (event_initialized(&evcon->retry_ev))
+		event_del(&evcon->retry_ev);
+
 	/* Do not do hard reset, since this will reset the fd, but someone may
 	 * change some options for it (i.e. setsockopt(), #875)
 	 *
